@@ -82,6 +82,8 @@ Judge(obs) ==
          : f \in { f \in F : Structured(obs.style) /\ f.tag = "result" /\ f.tagname \notin ToSet(f.sigres) } }
   \cup { [property |-> "C13", clause |-> "Intact", sig |-> "example-lines:" \o obs.style, expected |-> ToString(ExCode(l.decl)), observed |-> ToString(l.excode)]
          : l \in { l \in ToSet(obs.lines) : obs.style \in {"NUMPYDOC", "GOOGLE"} /\ l.excode # ExCode(l.decl) } }
+  \cup (IF obs.moddoc = << >> THEN {}      \* the modules have no docstring (a string statement after an assignment is none)
+        ELSE { [property |-> "C13", clause |-> "Attach", sig |-> "module-description-from-another-statement:" \o obs.style, expected |-> "<<>>", observed |-> ToString(obs.moddoc)] })
   \cup { [property |-> "C13", clause |-> "Intact", sig |-> "description-lines:" \o obs.style, expected |-> ToString(DescLines(l.decl)), observed |-> ToString(l.text)]
          : l \in { l \in ToSet(obs.lines) : l.text # DescLines(l.decl) } }
 
